@@ -195,6 +195,10 @@ func (huc *htpasswdUserCache) Close() {
 }
 
 func (huc *htpasswdUserCache) Match(username string, password string) bool {
+	if huc.userFileObject == nil {
+		// the user file could not be loaded: nobody is authorized
+		return false
+	}
 	return huc.userFileObject.Match(username, password)
 }
 
